@@ -6,6 +6,7 @@ mod base;
 mod compile;
 mod conv;
 mod rich;
+mod syms;
 
 fn main() {
     let args: Vec<String> = std::env::args().collect();
@@ -20,6 +21,7 @@ fn main() {
         "base" => base::run(&rest),
         "compile" => compile::run(&rest),
         "conv" => conv::run(&rest),
+        "syms" => syms::run(&rest),
         other => {
             eprintln!("cvh: unknown sub-command {other}");
             std::process::exit(2);
